@@ -108,10 +108,13 @@ def translate_sync(ctx):
 def run(ctx):
     cov = {"rule": RULE, "evaluations": 0, "distinct_nontrivial": 0}
     translate_sync(ctx)
+    # the formulas of const.go / line.go / once.go / step.go (count AND offsets of a part): the leaves of
+    # Model/SchedProfileTree.v are Model/Sched.v's, which Gen/Sched_bridge.v ties to the source as it is now
+    common.translate(ctx, "sched", "SchedGen.v")
     model_ok = ctx.coq(["Extract/Extract%s.vo" % ctx.prop], what="model+extraction")
     if model_ok:
         ctx.properties(extra_files=["Properties/C02_nested.v", "Properties/C02_leaf.v", "Properties/C02_factory.v",
-                                    "Gen/SchedSync_bridge.v"])
+                                    "Properties/C02_profile.v", "Gen/SchedSync_bridge.v", "Gen/Sched_bridge.v"])
     h = ctx.build_harness("hC02")
     m = ctx.ocaml_model("mC02", "C02_model", "C02") if model_ok else None
     if h and m:
